@@ -175,6 +175,32 @@ func init() {
 		"runtime.Goexit":                   func(fr *frame, a []value) (value, bool) { panic(goexit{}) },
 		"encoding/gob.Register":            func(fr *frame, a []value) (value, bool) { return nil, true },
 		"encoding/gob.RegisterName":        func(fr *frame, a []value) (value, bool) { return nil, true },
+		// encoding/gob is reflection driven and cannot be executed: the stream is
+		// modelled by two harness closures (vf.SetGob): Encode hands the value to
+		// the first, Decode hands the destination pointer to the second. The
+		// code around them (Bytecode.Encode/Decode) is the real SSA.
+		"encoding/gob.NewEncoder": func(fr *frame, a []value) (value, bool) {
+			v := zero(deref(fr.fn.Signature.Results().At(0).Type()))
+			return &v, true
+		},
+		"encoding/gob.NewDecoder": func(fr *frame, a []value) (value, bool) {
+			v := zero(deref(fr.fn.Signature.Results().At(0).Type()))
+			return &v, true
+		},
+		"(*encoding/gob.Encoder).Encode": func(fr *frame, a []value) (value, bool) {
+			h := fr.i.hooks["gob.enc"]
+			if h == nil {
+				panic(unsupported("encoding/gob used without a harness model (vf.SetGob)"))
+			}
+			return call(fr.i, fr, token.NoPos, h, []value{a[1]}), true
+		},
+		"(*encoding/gob.Decoder).Decode": func(fr *frame, a []value) (value, bool) {
+			h := fr.i.hooks["gob.dec"]
+			if h == nil {
+				panic(unsupported("encoding/gob used without a harness model (vf.SetGob)"))
+			}
+			return call(fr.i, fr, token.NoPos, h, []value{a[1]}), true
+		},
 		"internal/godebug.New":             func(fr *frame, a []value) (value, bool) { v := value(structure{"", (*value)(nil), nil}); return &v, true },
 		"(*internal/godebug.Setting).Value": func(fr *frame, a []value) (value, bool) { return "", true },
 		"(*internal/godebug.Setting).IncNonDefault": func(fr *frame, a []value) (value, bool) { return nil, true },
